@@ -57,6 +57,23 @@ def gen_cases(ctx, rng):
             c["c10"] = {"family": "add", "at": R, "T": T}
             stats["added_later"] += 1
         cases.append(c)
+    # several connections through the same toxic, established at different times: each gets its own T
+    stats["staggered_connections"] = 0
+    for i in range(30 if ctx.tier == "quick" else 800):
+        T = rng.choice([100, 400, 1000])
+        nl = rng.range(2, 3)
+        starts = [0] + sorted(rng.range(1, 3 * T) * L.MS + rng.range(1, 999) for _ in range(nl - 1))
+        srcs = []
+        for st in starts:
+            t, src = st + rng.range(1, 20) * L.MS, []
+            for _ in range(rng.range(0, 4)):
+                src.append({"at": t, "n": rng.range(1, 500)})
+                t += rng.choice([7, 60, 150]) * L.MS + rng.range(1, 999)
+            src.append({"at": st + 20 * T * L.MS, "close": True})
+            srcs.append(src)
+        cases.append({"dir": rng.choice(["upstream", "downstream"]), "chain": [L.tx("timeout", name="t", timeout=T)], "src": srcs[0], "srcs": srcs,
+                      "links": nl, "link_start": starts, "horizon": 3600 * 1000 * L.MS, "seed": 3000 + i, "staggered": True})
+        stats["staggered_connections"] += nl
     return cases, stats
 
 
@@ -99,7 +116,7 @@ def oracle(case, res):
     # so with such stages it reaches the timeout stage at some instant >= the close itself
     exact = not any(t["type"] == "latency" and t["attributes"]["latency"] > 0 for t in case["chain"])
     if T > 0:
-        exp = T * L.MS
+        exp = case.get("started", 0) + T * L.MS          # T after the toxic took effect on THIS connection
         lo = min(exp, srcclose[0]) if srcclose else exp
         if res["closed"] > exp or res["closed"] < lo or (exact and res["closed"] != lo):
             return "connection closed at %d ns, expected %d ns (T = %d ms after the toxic took effect)" % (res["closed"], lo if exact else exp, T)
@@ -117,12 +134,12 @@ def run(ctx):
         rule="links with one timeout toxic (T from {0,1,50,100,250,10000} ms) behind 0-2 noop/latency stages; 0-12 writes with periods "
              "below/near/above T (never exactly at T), sender closing before or after T; plus links where the toxic (T in {0,500,10000}) is removed at a "
              "random instant under continuous traffic with chunks parked in a latency stage upstream of it, and links where it is added on a "
-             "connection that already carries traffic; non-trivial = T > 0 and at least two writes "
+             "connection that already carries traffic; 2-3 connections established at different times through the same toxic; non-trivial = T > 0 and at least two writes "
              "arrive before T; distinct by JSON",
         nontrivial=lambda c: any(t["type"] == "timeout" and t["attributes"]["timeout"] > 0 for t in c["chain"]) and len(c["src"]) > 2,
         assumptions=["the families with a removal or a late addition are judged by the oracle only (the executable model replays static chains)",
                      "a chunk arriving at exactly T is a genuine race in the code (select picks either arm); generators avoid the tie"],
-        model_filter=lambda c: not c.get("ops"))
+        model_filter=lambda c: not c.get("ops") and not c.get("staggered"))
 
 
 def replay(ctx, path):
